@@ -45,7 +45,31 @@ def sig(t):
     return (t.guard, t.action, tuple(t.preconditions), tuple(t.postconditions), tuple(t.invariants))
 
 
+class BrokenTree(Exception):
+    pass
+
+
+def tree_problem(sc):
+    """A cheap structural look that cannot loop: is the parent relation still a tree under one root?  (The derived queries
+    ancestors_for / depth_for walk it without a bound: on a cycle they never return.)"""
+    names = sc.states
+    for n in names:
+        p, k = sc.parent_for(n), 0
+        while p is not None:
+            k += 1
+            if k > len(names):
+                return 'the parent relation has a cycle through %r' % n
+            p = sc.parent_for(p)
+    roots = [n for n in names if sc.parent_for(n) is None]
+    if names and len(roots) != 1:
+        return 'states without parent: %r' % roots
+    return None
+
+
 def view(sc):
+    prob = tree_problem(sc)
+    if prob:
+        raise BrokenTree(prob)
     v = {}
     names = sc.states
     for i, n in enumerate(names):
@@ -482,6 +506,11 @@ def run_case(acc, rnd, tier, case):
             acc.violation('C16:other-exception', '%r raised %s: %s' % (call, type(e).__name__, str(e)[:200]), wit)
             return
         ctx = context_class(op, before, call)
+        prob = tree_problem(sc)
+        if prob:
+            acc.violation('C16:statechart-is-not-a-tree-anymore', '%r (%s; the documented behaviour is %s) left a statechart in '
+                          'which %s' % (call, got, want, prob), wit)
+            return
         if got != want:
             acc.violation('C16:outcome-differs', '%r was %s, the documented behaviour is %s' % (call, got, want),
                           dict(wit, after=view(sc)))
